@@ -29,11 +29,18 @@ def current_consts(F):
         p = strip_generics(c['path'])
         if p in CONSTS:
             out[p] = c.get('val')
+    # a format constant that moved (`db::MAGIC_VALUE` -> `Meta::MAGIC_VALUE`) is the same constant: found by its name when exactly one constant of that name exists
+    for want in CONSTS:
+        if want not in out:
+            same = [c for c in F.doc['consts'] if last_seg(strip_generics(c['path'])) == last_seg(want)]
+            if len(same) == 1:
+                out[want] = same[0].get('val')
     return out
 
 
 def recipe(ctx, fn, writer_names, adt):
     """ordered [(field path, encoding)] fed to the hasher/writer in fn, in control-flow order"""
+    fn = ctx.x(fn)       # a nested `feed(&mut hasher, bytes)` helper is part of the checksum function
     du = ctx.du(fn)
     order = []
     seen = set()
@@ -607,8 +614,13 @@ def count_open_refusals(ctx):
     if op is None:
         return dict(total=0, sites={})
     seen = set()
+    def config_only(g):
+        # a function that sees nothing of the file (no File / map / header / page / DBInner / byte-slice parameter) can only refuse a CONFIGURATION: the builder's limits
+        # restated in a helper (`validate_pagesize(pagesize)`) refuse no file
+        tys = ' '.join(g.locals[i]['ty'] for i in range(1, g.argc + 1))
+        return g.argc >= 1 and not any(m in tys for m in ('File', 'Mmap', 'DBInner', 'Meta', 'Page', '[u8]', 'OpenOptions', 'Path', 'DB'))
     for g in F.reachable_fns([op]):
-        if g is cm:
+        if g is cm or config_only(g):
             continue
         for bb in g.reachable_blocks():
             t = g.term(bb)
